@@ -257,7 +257,9 @@ class AsyncIOClient(ABC):
                     await self.writer.drain()
                     self.logger.debug(f"Sent: {msg.hex()}")
 
-        except ValueError as ve:
+        except (ValueError, NotImplementedError) as ve:
+                # the message cannot be encoded (bad message, or no encoder for this gateway format);
+                # the connection itself is fine
                 self.logger.warning(f"Failed to encode message. Error {ve}")
         except Exception as ex:
             if self._state != State.CLOSED:
